@@ -269,6 +269,23 @@ evaluates to `2/(16+3)`, the model's rate is `2/(1+(4/3)^2) = 18/25`. -/
 theorem kl_hill_wrong_constant :
     (2 : ℚ) / (4 ^ 2 + 3) ≠ 2 / (1 + (4 / 3) ^ 2) := by norm_num
 
+/-- **the written deterministic law does not depend on the order the reactants were listed in**: `A + B → …` and
+`B + A → …` (any length, any multiplicities) export kinetic laws of the same value at every state. -/
+theorem kl_massaction_det_perm (env : Env α) (k : String) (R R' : List String) (x : String → α)
+    (henv : ∀ s, env s = some (x s)) (h : R.Perm R') :
+    Expr.eval env (klMassAction false k R) = Expr.eval env (klMassAction false k R') := by
+  rw [kl_massaction_det env k R x henv, kl_massaction_det env k R' x henv, (h.map x).prod_eq]
+
+/-- a reaction without reactants (`∅ → X`) exports the bare rate constant in both kinds of export. -/
+theorem kl_massaction_source (env : Env α) (k : String) (x : String → α) (henv : ∀ s, env s = some (x s)) :
+    Expr.eval env (klMassAction false k []) = some (x k) ∧ Expr.eval env (klMassAction true k []) = some (x k) := by
+  have h1 := kl_massaction_det env k [] x henv
+  have h2 := kl_massaction_stoch env k [] x henv
+  simp only [List.map_nil, List.prod_nil, mul_one] at h1
+  refine ⟨h1, ?_⟩
+  rw [h2]
+  simp [prodFallS, dedupCount]
+
 /-- **what is proved** (`kl_det_partial`): for mass-action reactions of any order and multiplicity the
 written law equals the model's deterministic rate in a deterministic export and the combinatorial rate in a
 stochastic export; the Hill family is excluded (see above). -/
